@@ -361,6 +361,10 @@ class CallMixin:
     def isinstance_v(self, v: V, c: V) -> bool:
         v = self.resolve_alt(v)
         classes = self.class_list(c)
+        if classes and isinstance(classes[0], (NodeV, NewNode, Str, PyList, PyDict, Const)):
+            # the first thing isinstance() looks at is an instance, not a class: TypeError whatever the object is
+            self.may_raise("builtins.TypeError", f"isinstance(_, {_describe(classes[0])})", definite=True)
+            raise _Raise(self.make_exc("builtins.TypeError"), self.cur_where)
         quals = [x.qual for x in classes if isinstance(x, RefV)]
         unknown_cls = [x for x in classes if not isinstance(x, RefV)]
         kinds_t = [q[len(AST_PREFIX):] for q in quals if q.startswith(AST_PREFIX)]
